@@ -93,7 +93,7 @@ def fs_shards(ops):
 
 
 def c04_shards(tier, seed, search=False):
-    return db_shards(["fault"])(tier, seed, search) + fs_shards(["create", "putnew", "putver", "activate", "delver", "delete"])
+    return db_shards(["fault"])(tier, seed, search) + fs_shards(["create", "putnew", "putver", "activate", "delver", "delete", "putverwide"])
 
 
 PROPS["C04"]["shards"] = c04_shards
@@ -162,7 +162,7 @@ STORE_TRUST = BASE_TRUST + ["testing/synctest virtual time (go1.26.8); the scrip
 for _p in ("C10", "C11", "C13", "C19"):
     PROPS[_p] = dict(shards=store_shards, trusted=STORE_TRUST, rule=STORE_RULE,
                      assumptions=["sequential store histories (concurrent readers are C12's)", "whole-second wall clock for expiry", "the client returns when its context ends"])
-PROPS["C13"]["shards"] = lambda tier, seed, search=False: store_shards(tier, seed, search) + fs_shards(["cache"])
+PROPS["C13"]["shards"] = lambda tier, seed, search=False: store_shards(tier, seed, search) + fs_shards(["cache", "cachewide"])
 PROPS["C11"]["diverge"] = lambda l: l.startswith("DIVERGE poll")
 PROPS["C10"]["diverge"] = lambda l: l.startswith("DIVERGE new") or l.startswith("DIVERGE init")
 PROPS["C19"]["diverge"] = lambda l: l.startswith("DIVERGE poll_state") or l.startswith("DIVERGE read") or l.startswith("DIVERGE poll_requests")
@@ -315,3 +315,18 @@ PROPS["C18"]["rule"] = PROPS["C18"]["rule"] + "; (v) DB histories with failing s
 _c06c = PROPS["C06"]["shards"]
 PROPS["C06"]["shards"] = lambda tier, seed, search=False: _c06c(tier, seed, search) + http_shards(tier, seed, search)[:3]
 PROPS["C06"]["rule"] = PROPS["C06"]["rule"] + "; plus the http family (an accepted request leaves exactly the records the specification requires)"
+
+for _pid in ("C03", "C04", "C01"):
+    PROPS[_pid]["race"] = True
+    PROPS[_pid]["shards"] = (lambda old: (lambda tier, seed, search=False: old(tier, seed, search) + [
+        Shard(sh.family, sh.args, driver=sh.driver, binary=sh.binary, race_props=[]) for sh in conc_shards(tier, seed, search)[:2]]))(PROPS[_pid]["shards"])
+    PROPS[_pid]["rule"] = PROPS[_pid]["rule"] + "; plus the concurrent family (C01: a caller without a grant making the same requests at the same time is refused every time; C03/C04: at quiescence the file holds what the running server serves)"
+
+_c05b = PROPS["C05"]["shards"]
+PROPS["C05"]["shards"] = lambda tier, seed, search=False: _c05b(tier, seed, search) + fs_shards(["putverwide"])
+PROPS["C05"]["rule"] = PROPS["C05"]["rule"] + "; plus one save traced under strace on a database file that exists with mode 0644 (every mode given to open or chmod must be 0600)"
+
+for _pid in ("C13", "C19"):
+    PROPS[_pid]["race"] = True
+    PROPS[_pid]["shards"] = (lambda old, _p=_pid: (lambda tier, seed, search=False: old(tier, seed, search) + concstore_shards(tier, seed, search, props=(_p,))[:3]))(PROPS[_pid]["shards"])
+    PROPS[_pid]["rule"] = PROPS[_pid]["rule"] + "; plus the concurrent store family (with everything settled the cache document is the store's current state)"
